@@ -1,5 +1,6 @@
 (* C12 — evaluations in one session do not interfere.  Only statements closed by [exact];
-   the proofs live in coq/Mech/*.v.
+   the proofs live in coq/Mech/*.v; non-vacuity Examples (hypotheses met by non-trivial
+   configurations) are in coq/Mech/Examples.v and coq/Mech/Broken.v.
 
    Objects (all executable, coq/Mech/Machine.v and coq/Mech/Spec.v):
      sess_run / sess_step : the REPL session over the call-by-need machine; every input carries the
@@ -11,7 +12,7 @@
 From Coq Require Import String ZArith List Bool.
 Import ListNotations.
 From NV Require Import Mech.Syntax Mech.Machine Mech.Spec Mech.Invariants Mech.SpecFacts
-  Mech.Refine Mech.RefineFull Mech.Broken.
+  Mech.Refine Mech.RefineFull Mech.Broken Mech.Examples.
 
 (* In every configuration reachable by the machine (any run of `eval`, `eval_full`, `:query`,
    started on a heap without black-holed thunks) the update frames on the stack reference
